@@ -661,9 +661,21 @@ func (lb *LoadBalancer) findHealthyBackend(r *http.Request) *Backend {
 	for i := 0; i < 3; i++ { // Try up to 3 times to find a healthy backend
 		backend := lb.NextBackend(r)
 		if backend == nil {
-			return nil
+			break
 		}
 
+		if lb.IsBackendHealthy(backend) {
+			return backend
+		}
+	}
+
+	// The strategy's picks were all ejected (or it only looks at the cached health flag):
+	// fall back to any backend that is eligible right now, so an ejected backend never
+	// causes a 503 while another one is healthy and expired windows are re-admitted.
+	lb.mutex.RLock()
+	backends := lb.strategy.GetBackends()
+	lb.mutex.RUnlock()
+	for _, backend := range backends {
 		if lb.IsBackendHealthy(backend) {
 			return backend
 		}
